@@ -26,6 +26,31 @@ theorem trimOneSpace_spec (n : List Char) : trimOneSpace n = n ∨ n = ' ' :: tr
   · right; rfl
   · left; rfl
 
+/-- no white-space rune (Go `unicode.IsSpace`) in `n` -/
+def NoSp (n : List Char) : Prop := ∀ c ∈ n, isSpace c = false
+
+theorem noSp_nil : NoSp [] := by simp [NoSp]
+theorem noSp_cons {c : Char} {n : List Char} (hc : isSpace c = false) (hn : NoSp n) : NoSp (c :: n) := by
+  intro x hx
+  simp only [List.mem_cons] at hx
+  rcases hx with rfl | hx
+  · exact hc
+  · exact hn x hx
+theorem noSp_reverse {n : List Char} (hn : NoSp n) : NoSp n.reverse := by
+  intro x hx; exact hn x (by simpa using hx)
+theorem noSp_noblank {n : List Char} (hn : NoSp n) : ' ' ∉ n := by
+  intro h; have := hn _ h; rw [isSpace_blank] at this; cases this
+
+theorem trimOneSpace_cons_space (n : List Char) : trimOneSpace (' ' :: n) = n := rfl
+theorem trimOneSpace_nohead (n : List Char) (h : ∀ r, n ≠ ' ' :: r) : trimOneSpace n = n := by
+  unfold trimOneSpace
+  split
+  · rename_i r; exact absurd rfl (h r)
+  · rfl
+theorem trimOneSpace_cons_ne (c : Char) (n : List Char) (h : c ≠ ' ') : trimOneSpace (c :: n) = c :: n := by
+  apply trimOneSpace_nohead; intro r hr
+  simp only [List.cons.injEq] at hr; exact h hr.1
+
 /-- the recorded name end is the position after the last non-blank rune of the name -/
 def NameOK (n : List Char) (st en : Pos) : Prop := core n ≠ [] → en = adv st (core n).reverse
 
@@ -40,15 +65,18 @@ theorem nameOK_push {n : List Char} {st p : Pos} {c : Char}
 
 /-- what the theorem says about one attribute -/
 def AttrOK (a : Attr) : Prop :=
-  (a.name ≠ [] → ' ' ∉ a.name → a.nameEnd = adv a.nameStart a.name) ∧
-  (∀ v, a.value = some v → a.valueEnd = adv a.valueStart v)
+  (a.name ≠ [] → a.nameEnd = adv a.nameStart a.name) ∧
+  (∀ v, a.value = some v → a.valueEnd = adv a.valueStart v) ∧
+  NoSp a.name
 
 theorem attrOK_mk {n t : List Char} {st en : Pos} (hn : NameOK n st en) (ht : t = n ∨ n = ' ' :: t)
+    (hs : NoSp t)
     (val : Option (List Char)) (vs ve : Pos) (hv : ∀ v, val = some v → ve = adv vs v) :
     AttrOK { name := t.reverse, nameStart := st, nameEnd := en, value := val, valueStart := vs, valueEnd := ve } := by
-  refine ⟨?_, hv⟩
-  simp only [ne_eq, List.reverse_eq_nil_iff, List.mem_reverse]
-  intro hne hb
+  refine ⟨?_, hv, noSp_reverse hs⟩
+  simp only [ne_eq, List.reverse_eq_nil_iff]
+  intro hne
+  have hb : ' ' ∉ t := noSp_noblank hs
   have hcore : core n = t := by
     rcases ht with rfl | h
     · exact core_noblank _ hb
@@ -56,27 +84,43 @@ theorem attrOK_mk {n t : List Char} {st en : Pos} (hn : NameOK n st en) (ht : t 
   have := hn (by rw [hcore]; exact hne)
   rw [this, hcore]
 
-def TokAttrOK (t : Token) : Prop := ∀ tg, t.tag = some tg → ∀ a ∈ tg.attrs, AttrOK a
+/-- every attribute is fine and the names are pairwise distinct -/
+def AttrsOK (as : List Attr) : Prop := (∀ a ∈ as, AttrOK a) ∧ as.Pairwise (fun a b => a.name ≠ b.name)
+
+theorem attrsOK_nil : AttrsOK [] := by simp [AttrsOK]
+theorem attrsOK_reverse {as : List Attr} (h : AttrsOK as) : AttrsOK as.reverse := by
+  refine ⟨fun a ha => h.1 a (by simpa using ha), ?_⟩
+  rw [List.pairwise_reverse]
+  exact h.2.imp (fun hab => Ne.symm hab)
+
+theorem addAttr_nodup {l l' : TagL} {a : Attr} (h : addAttr l a = .ok l') :
+    l.attrs.any (fun b => b.name == a.name) = false := by
+  unfold addAttr at h
+  split at h
+  · cases h
+  · rename_i hn; simpa using hn
+
+def TokAttrOK (t : Token) : Prop := ∀ tg, t.tag = some tg → AttrsOK tg.attrs
 
 def AttrL (l : TagL) (pos : Pos) : Prop :=
-  (∀ a ∈ l.attrs, AttrOK a) ∧
-  (l.st = .attrName → NameOK l.attrName l.attrNameStart l.attrNameEnd ∧
+  AttrsOK l.attrs ∧
+  (l.st = .attrName → NameOK l.attrName l.attrNameStart l.attrNameEnd ∧ NoSp (trimOneSpace l.attrName) ∧
       ((∀ r, l.attrName ≠ ' ' :: r) → adv l.attrNameStart l.attrName.reverse = pos)) ∧
-  (l.st = .attrValue → NameOK l.attrName l.attrNameStart l.attrNameEnd ∧ l.attrValueEnd = pos ∧
-      l.attrValueEnd = adv l.attrValueStart l.attrValue.reverse)
+  (l.st = .attrValue → NameOK l.attrName l.attrNameStart l.attrNameEnd ∧ NoSp (trimOneSpace l.attrName) ∧
+      l.attrValueEnd = pos ∧ l.attrValueEnd = adv l.attrValueStart l.attrValue.reverse)
 
 def AInv (s : S) : Prop :=
   (∀ t ∈ s.toks, TokAttrOK t) ∧ (∀ l, s.mode = .tag l → AttrL l s.pos)
 
 theorem ainv_finish {s : S} {l : TagL} {p' : Pos} (htoks : ∀ t ∈ s.toks, TokAttrOK t)
-    (hattrs : ∀ a ∈ l.attrs, AttrOK a) : AInv (finishTag s l p') := by
+    (hattrs : AttrsOK l.attrs) : AInv (finishTag s l p') := by
   refine ⟨?_, by simp [finishTag, S.emit]⟩
   intro t ht
   simp only [finishTag, S.emit, List.mem_cons] at ht
   rcases ht with rfl | ht
-  · intro tg htg a ha
+  · intro tg htg
     simp only [Option.some.injEq] at htg; subst htg
-    exact hattrs a (by simpa using ha)
+    exact attrsOK_reverse hattrs
   · exact htoks t ht
 
 theorem ainv_cont {toks : List Token} {l : TagL} {p' : Pos} (htoks : ∀ t ∈ toks, TokAttrOK t)
@@ -93,19 +137,40 @@ theorem ainv_endCheck {s s' : S} {l : TagL} {c : Char} {p' : Pos}
   · exact ainv_finish htoks hl.1
   · exact ainv_cont htoks hl
 
+theorem attrs_cons {a : Attr} {as : List Attr} (ha : AttrOK a) (has : AttrsOK as)
+    (hd : as.any (fun b => b.name == a.name) = false) : AttrsOK (a :: as) := by
+  refine ⟨?_, List.pairwise_cons.2 ⟨?_, has.2⟩⟩
+  · intro b hb
+    simp only [List.mem_cons] at hb
+    rcases hb with rfl | hb
+    · exact ha
+    · exact has.1 b hb
+  · intro b hb heq
+    have := List.any_eq_false.1 hd b hb
+    simp [heq] at this
+
 theorem stepAttrName_ainv (s : S) (l : TagL) (c : Char) (p p' : Pos) (s' : S)
     (hp' : p' = p.advance c) (hst : l.st = .attrName)
-    (htoks : ∀ t ∈ s.toks, TokAttrOK t) (hattrs : ∀ a ∈ l.attrs, AttrOK a)
+    (htoks : ∀ t ∈ s.toks, TokAttrOK t) (hattrs : AttrsOK l.attrs)
     (hn : NameOK l.attrName l.attrNameStart l.attrNameEnd)
+    (hs : NoSp (trimOneSpace l.attrName))
     (hcur : (∀ r, l.attrName ≠ ' ' :: r) → adv l.attrNameStart l.attrName.reverse = p)
     (h : stepTag.stepAttrName s l c p p' = .ok s') : AInv s' := by
   unfold stepTag.stepAttrName at h
   simp only at h
   by_cases hsp : isSpace c = true
   · simp only [hsp, if_true] at h
-    refine ainv_endCheck h htoks ⟨hattrs, ?_, ?_⟩
-    · intro _; exact ⟨nameOK_space hn, fun hr => absurd rfl (hr _)⟩
-    · simp [hst]
+    refine ainv_endCheck h htoks ?_
+    split
+    · rename_i r hr
+      exact ⟨hattrs, fun _ => ⟨hn, hs, fun hh => absurd hr (hh r)⟩, by simp [hst]⟩
+    · rename_i hno
+      have hno' : ∀ r, l.attrName ≠ ' ' :: r := fun r hr => hno r hr
+      refine ⟨hattrs, ?_, by simp [hst]⟩
+      intro _
+      refine ⟨nameOK_space hn, ?_, fun hr => absurd rfl (hr _)⟩
+      rw [trimOneSpace_nohead _ hno'] at hs
+      exact hs
   · simp only [hsp, Bool.false_eq_true, if_false] at h
     have hsp' : isSpace c = false := by simpa using hsp
     by_cases hgt : c = '>'
@@ -113,45 +178,44 @@ theorem stepAttrName_ainv (s : S) (l : TagL) (c : Char) (p p' : Pos) (s' : S)
       split at h
       · cases h
       · rename_i l1 hadd
+        have hd := addAttr_nodup hadd
         have := addAttr_ok hadd; subst this
         simp only [Except.ok.injEq] at h; subst h
-        refine ainv_finish htoks ?_
-        intro a ha
-        simp only [List.mem_cons] at ha
-        rcases ha with rfl | ha
-        · exact attrOK_mk hn ((trimOneSpace_spec _).imp id id) none _ _ (by simp)
-        · exact hattrs a ha
+        exact ainv_finish htoks (attrs_cons (attrOK_mk hn (trimOneSpace_spec _) hs none _ _ (by simp)) hattrs hd)
     · simp only [hgt, if_false] at h
       by_cases heq : c = '='
       · simp only [heq, if_true] at h
         simp only [Except.ok.injEq] at h; subst h
         refine ainv_cont htoks ⟨hattrs, by simp, ?_⟩
-        intro _; exact ⟨hn, rfl, by simp⟩
+        intro _; exact ⟨hn, hs, rfl, by simp⟩
       · simp only [heq, if_false] at h
         split at h
         · rename_i rest hrest
           split at h
           · cases h
           · rename_i l1 hadd
+            have hd := addAttr_nodup hadd
             have := addAttr_ok hadd; subst this
             simp only [Except.ok.injEq] at h; subst h
+            have hs' : NoSp rest := by rw [hrest] at hs; exact hs
             refine ainv_cont htoks ⟨?_, ?_, ?_⟩
-            · intro a ha
-              simp only [List.mem_cons] at ha
-              rcases ha with rfl | ha
-              · exact attrOK_mk hn (Or.inr hrest) none _ _ (by simp)
-              · exact hattrs a ha
+            · exact attrs_cons (attrOK_mk hn (Or.inr hrest) hs' none _ _ (by simp)) hattrs hd
             · intro _
-              refine ⟨?_, fun _ => by simp [hp']⟩
-              rw [hp']; exact nameOK_push (by simp) hsp'
+              refine ⟨?_, ?_, fun _ => by simp [hp']⟩
+              · rw [hp']; exact nameOK_push (by simp) hsp'
+              · rw [trimOneSpace_cons_ne c [] (ne_blank_of_not_space hsp')]
+                exact noSp_cons hsp' noSp_nil
             · simp [hst]
         · rename_i hno
           have hno' : ∀ r, l.attrName ≠ ' ' :: r := fun r hr => hno r hr
           simp only [Except.ok.injEq] at h; subst h
           refine ainv_cont htoks ⟨hattrs, ?_, ?_⟩
           · intro _
-            refine ⟨?_, fun _ => by simp [hp', hcur hno']⟩
-            rw [hp']; exact nameOK_push (hcur hno') hsp'
+            refine ⟨?_, ?_, fun _ => by simp [hp', hcur hno']⟩
+            · rw [hp']; exact nameOK_push (hcur hno') hsp'
+            · rw [trimOneSpace_cons_ne c _ (ne_blank_of_not_space hsp')]
+              rw [trimOneSpace_nohead _ hno'] at hs
+              exact noSp_cons hsp' hs
           · simp [hst]
 
 theorem ainv_init_emit {s : S} {p' : Pos} {t : Token} (htoks : ∀ t ∈ s.toks, TokAttrOK t) (ht : TokAttrOK t) :
@@ -169,20 +233,12 @@ theorem tokAttrOK_notag {t : Token} (h : t.tag = none) : TokAttrOK t := by
 theorem trimOneSpace_spec' (n : List Char) : trimOneSpace n = n ∨ n = ' ' :: trimOneSpace n :=
   trimOneSpace_spec n
 
-theorem attrs_cons {a : Attr} {as : List Attr} (ha : AttrOK a) (has : ∀ b ∈ as, AttrOK b) :
-    ∀ b ∈ a :: as, AttrOK b := by
-  intro b hb
-  simp only [List.mem_cons] at hb
-  rcases hb with rfl | hb
-  · exact ha
-  · exact has b hb
-
 macro "attr_tac" : tactic => `(tactic| (
   all_goals (try (simp only [Except.ok.injEq, reduceCtorEq] at *))
   all_goals (try subst_vars)
   all_goals (first
-    | exact ainv_finish ‹_› (by simpa using ‹∀ a ∈ _, AttrOK a›)
-    | exact ainv_cont ‹_› ⟨by simpa using ‹∀ a ∈ _, AttrOK a›, by simp, by simp⟩
+    | exact ainv_finish ‹_› (by simpa using ‹AttrsOK _›)
+    | exact ainv_cont ‹_› ⟨by simpa using ‹AttrsOK _›, by simp, by simp⟩
     | exact ainv_init_emit ‹_› (tokAttrOK_notag rfl))))
 
 theorem stepTag_ainv (s : S) (l0 : TagL) (c : Char) (p p' : Pos) (s' : S)
@@ -193,11 +249,12 @@ theorem stepTag_ainv (s : S) (l0 : TagL) (c : Char) (p p' : Pos) (s' : S)
   obtain ⟨hattrs, hname, hval⟩ := hl
   cases hst : l0.st <;> simp only [hst] at h
   case attrName =>
-    obtain ⟨hn, hcur⟩ := hname hst
-    refine stepAttrName_ainv s _ c p p' s' hp' ?_ htoks ?_ ?_ ?_ h
+    obtain ⟨hn, hs, hcur⟩ := hname hst
+    refine stepAttrName_ainv s _ c p p' s' hp' ?_ htoks ?_ ?_ ?_ ?_ h
     · simp
     · exact hattrs
     · exact hn
+    · exact hs
     · exact hcur
   case space =>
     by_cases h1 : c = '>'
@@ -205,10 +262,11 @@ theorem stepTag_ainv (s : S) (l0 : TagL) (c : Char) (p p' : Pos) (s' : S)
     · by_cases h2 : isSpace c = true
       · simp only [h1, h2, if_false] at h; simp at h; attr_tac
       · simp only [h1, h2, if_false] at h; simp at h
-        refine stepAttrName_ainv s _ c p p' s' hp' ?_ htoks ?_ ?_ ?_ h
+        refine stepAttrName_ainv s _ c p p' s' hp' ?_ htoks ?_ ?_ ?_ ?_ h
         · rfl
         · exact hattrs
         · exact nameOK_nil _ _
+        · exact noSp_nil
         · simp
   case tagStart =>
     clear hname hval
@@ -227,7 +285,7 @@ theorem stepTag_ainv (s : S) (l0 : TagL) (c : Char) (p p' : Pos) (s' : S)
     repeat' split at h
     attr_tac
   case attrValue =>
-    obtain ⟨hn, hve, hvs⟩ := hval hst
+    obtain ⟨hn, hs, hve, hvs⟩ := hval hst
     clear hname hval
     subst hve; subst hp'
     have hempty : (l0.attrValue.isEmpty && decide (c ≠ '>')) = true → l0.attrValue = [] := by
@@ -235,15 +293,16 @@ theorem stepTag_ainv (s : S) (l0 : TagL) (c : Char) (p p' : Pos) (s' : S)
     repeat' split at h
     all_goals (try (simp only [Except.ok.injEq, reduceCtorEq] at h))
     all_goals (try subst h)
-    all_goals (try (have hh := addAttr_ok ‹addAttr _ _ = Except.ok _›; subst hh))
+    all_goals (try (have hd := addAttr_nodup ‹addAttr _ _ = Except.ok _›
+                    have hh := addAttr_ok ‹addAttr _ _ = Except.ok _›; subst hh))
     all_goals (first
-      | (refine ainv_finish htoks (attrs_cons (attrOK_mk hn (trimOneSpace_spec' _) _ _ _ ?_) hattrs)
+      | (refine ainv_finish htoks (attrs_cons (attrOK_mk hn (trimOneSpace_spec' _) hs _ _ _ ?_) hattrs ‹_›)
          intro v hv; simp only [Option.some.injEq] at hv; subst hv
          first | exact hvs | (simp [← hvs]; done))
-      | (refine ainv_cont htoks ⟨attrs_cons (attrOK_mk hn (trimOneSpace_spec' _) _ _ _ ?_) hattrs, by simp, by simp⟩
+      | (refine ainv_cont htoks ⟨attrs_cons (attrOK_mk hn (trimOneSpace_spec' _) hs _ _ _ ?_) hattrs ‹_›, by simp, by simp⟩
          intro v hv; simp only [Option.some.injEq] at hv; subst hv
          first | exact hvs | (simp [← hvs]; done))
-      | (refine ainv_cont htoks ⟨hattrs, by simp, fun _ => ⟨hn, rfl, ?_⟩⟩
+      | (refine ainv_cont htoks ⟨hattrs, by simp, fun _ => ⟨hn, hs, rfl, ?_⟩⟩
          first
            | (simp [← hvs]; done)
            | (have he := hempty ‹_›; simp [he]; done)
@@ -255,10 +314,10 @@ theorem tokAttrOK_mk_none (k : Kind) (v : List Char) (a b : Pos) : TokAttrOK ⟨
 
 theorem tokAttrOK_mk_nil (k : Kind) (v : List Char) (a b : Pos) (n : List Char) :
     TokAttrOK ⟨k, v, a, b, some ⟨n, []⟩⟩ := by
-  intro tg htg a ha
-  simp only [Option.some.injEq] at htg; subst htg; simp at ha
+  intro tg htg
+  simp only [Option.some.injEq] at htg; subst htg; exact attrsOK_nil
 
-theorem attrL_new (p : Pos) : AttrL (newTagL p) p := by simp [AttrL, newTagL]
+theorem attrL_new (p : Pos) : AttrL (newTagL p) p := by simp [AttrL, newTagL, attrsOK_nil]
 
 theorem stepText_ainv (s : S) (l : TextL) (c : Char) (p p' : Pos) (s' : S)
     (hp' : p' = p.advance c) (htoks : ∀ t ∈ s.toks, TokAttrOK t)
@@ -311,14 +370,9 @@ theorem fold_ainv (cfg : Cfg) (cs : List Char) (s s' : S)
       simp only [hs] at h
       exact ih s1 (step_ainv cfg s s1 c hi hs) h
 
-/-- C17, attribute part: in every tag token of a successful scan, every attribute whose name is non-empty and
-    contains no blank (i.e. was not followed by two or more whitespace runes, see the report) has
-    `nameEnd = advance-fold of nameStart over the name`, and every attribute with a value has
-    `valueEnd = advance-fold of valueStart over the value` (the value includes its quotes). -/
-theorem attr_positions_exact (cfg : Cfg) (cs : List Char) (toks : List Token) (h : scan cfg cs = .ok toks) :
-    ∀ t ∈ toks, ∀ tg, t.tag = some tg → ∀ a ∈ tg.attrs,
-      (a.name ≠ [] → ' ' ∉ a.name → a.nameEnd = a.name.foldl Pos.advance a.nameStart) ∧
-      (∀ v, a.value = some v → a.valueEnd = v.foldl Pos.advance a.valueStart) := by
+/-- master statement: after a successful scan every token satisfies `TokAttrOK` -/
+theorem scan_tokAttrOK (cfg : Cfg) (cs : List Char) (toks : List Token) (h : scan cfg cs = .ok toks) :
+    ∀ t ∈ toks, TokAttrOK t := by
   unfold scan at h
   simp only [bind, Except.bind] at h
   cases hf : cs.foldlM (step cfg) { mode := .init, pos := ⟨1,1⟩, toks := [] } with
@@ -340,6 +394,44 @@ theorem attr_positions_exact (cfg : Cfg) (cs : List Char) (toks : List Token) (h
       · exact tokAttrOK_mk_none _ _ _ _
     | tag l => simp [hm] at h
 
+/-- C17, attribute part: in every tag token of a successful scan, every attribute whose name is non-empty has
+    `nameEnd = advance-fold of nameStart over the name`, and every attribute with a value has
+    `valueEnd = advance-fold of valueStart over the value` (the value includes its quotes).
+    (Before the Go fix "a run of blanks after an attribute name is recorded once" the name clause additionally
+    needed `' ' ∉ a.name`; by `attr_name_no_space` below that can no longer happen.) -/
+theorem attr_positions_exact (cfg : Cfg) (cs : List Char) (toks : List Token) (h : scan cfg cs = .ok toks) :
+    ∀ t ∈ toks, ∀ tg, t.tag = some tg → ∀ a ∈ tg.attrs,
+      (a.name ≠ [] → a.nameEnd = a.name.foldl Pos.advance a.nameStart) ∧
+      (∀ v, a.value = some v → a.valueEnd = v.foldl Pos.advance a.valueStart) := by
+  intro t ht tg htg a ha
+  have := (scan_tokAttrOK cfg cs toks h t ht tg htg).1 a ha
+  exact ⟨this.1, this.2.1⟩
+
+/-- a recorded attribute name never contains a white-space rune (Go `unicode.IsSpace`) -/
+theorem attr_name_no_space (cfg : Cfg) (cs : List Char) (toks : List Token) (h : scan cfg cs = .ok toks) :
+    ∀ t ∈ toks, ∀ tg, t.tag = some tg → ∀ a ∈ tg.attrs, ∀ c ∈ a.name, isSpace c = false := by
+  intro t ht tg htg a ha
+  exact ((scan_tokAttrOK cfg cs toks h t ht tg htg).1 a ha).2.2
+
+/-- in particular it never contains a blank -/
+theorem attr_name_no_blank (cfg : Cfg) (cs : List Char) (toks : List Token) (h : scan cfg cs = .ok toks) :
+    ∀ t ∈ toks, ∀ tg, t.tag = some tg → ∀ a ∈ tg.attrs, ' ' ∉ a.name := by
+  intro t ht tg htg a ha
+  exact noSp_noblank (attr_name_no_space cfg cs toks h t ht tg htg a ha)
+
+/-- the attribute names of one tag token are pairwise distinct (a duplicate is rejected with `.dupAttr`) -/
+theorem attr_names_distinct (cfg : Cfg) (cs : List Char) (toks : List Token) (h : scan cfg cs = .ok toks) :
+    ∀ t ∈ toks, ∀ tg, t.tag = some tg → tg.attrs.Pairwise (fun a b => a.name ≠ b.name) := by
+  intro t ht tg htg
+  exact (scan_tokAttrOK cfg cs toks h t ht tg htg).2
+
+/-- the same as `Nodup` of the list of names -/
+theorem attr_names_nodup (cfg : Cfg) (cs : List Char) (toks : List Token) (h : scan cfg cs = .ok toks) :
+    ∀ t ∈ toks, ∀ tg, t.tag = some tg → (tg.attrs.map Attr.name).Nodup := by
+  intro t ht tg htg
+  rw [List.Nodup, List.pairwise_map]
+  exact attr_names_distinct cfg cs toks h t ht tg htg
+
 /-- name / value with their recorded positions, per token (error = no tokens) -/
 def attrSummary (r : Except Err (List Token)) : List (List (List Char × Pos × Pos × Option (List Char) × Pos × Pos)) :=
   match r with
@@ -358,17 +450,32 @@ example : attrSummary (scan ⟨[]⟩ "<p a b =1 c\n=\n'x\ty' d=>".toList) =
 
 example : ∃ toks, scan ⟨[]⟩ "<p a b =1 c\n=\n'x\ty' d=>".toList = .ok toks := ⟨_, rfl⟩
 
-/- sharpness of the two exclusions in the name clause (both reproduced on the Go scanner):
-   (1) an attribute with an EMPTY name (`<p a=1 =2>`) keeps the stale `nameEnd` of the previous attribute
-       (or 0:0 if there is none, `<p =x>`): name "" 1:8 – 1:5;
-   (2) a name followed by two or more whitespace runes keeps all but one of them as blanks in `name`
-       (`<p a  b>` has an attribute named "a "), while `nameEnd` is the position after the last non-blank rune. -/
+/- sharpness of the remaining exclusion in the name clause (reproduced on the Go scanner):
+   an attribute with an EMPTY name (`<p a=1 =2>`) keeps the stale `nameEnd` of the previous attribute
+   (or 0:0 if there is none, `<p =x>`): name "" 1:8 – 1:5. -/
 example : attrSummary (scan ⟨[]⟩ "<p a=1 =2>".toList) =
     [[(['a'], ⟨1,4⟩, ⟨1,5⟩, some ['1'], ⟨1,6⟩, ⟨1,7⟩), ([], ⟨1,8⟩, ⟨1,5⟩, some ['2'], ⟨1,9⟩, ⟨1,10⟩)]] := by rfl
 
 example : attrSummary (scan ⟨[]⟩ "<p =x>".toList) = [[([], ⟨1,4⟩, ⟨0,0⟩, some ['x'], ⟨1,5⟩, ⟨1,6⟩)]] := by rfl
 
+/- a name followed by two or more white-space runes (blank, tab, newline, NBSP): since the Go fix the recorded name
+   is "a" (before: "a" followed by all but one of the white-space runes as blanks), `nameEnd` is the position after
+   the last rune of the name -/
 example : attrSummary (scan ⟨[]⟩ "<p a  b>".toList) =
-    [[(['a', ' '], ⟨1,4⟩, ⟨1,5⟩, none, ⟨0,0⟩, ⟨0,0⟩), (['b'], ⟨1,7⟩, ⟨1,8⟩, none, ⟨0,0⟩, ⟨0,0⟩)]] := by rfl
+    [[(['a'], ⟨1,4⟩, ⟨1,5⟩, none, ⟨0,0⟩, ⟨0,0⟩), (['b'], ⟨1,7⟩, ⟨1,8⟩, none, ⟨0,0⟩, ⟨0,0⟩)]] := by rfl
+
+example : attrSummary (scan ⟨[]⟩ "<p a \t\n  = 1 b  >".toList) =
+    [[(['a'], ⟨1,4⟩, ⟨1,5⟩, some ['1'], ⟨2,5⟩, ⟨2,6⟩), (['b'], ⟨2,7⟩, ⟨2,8⟩, none, ⟨0,0⟩, ⟨0,0⟩)]] := by rfl
+
+/- non-vacuity of `attr_names_distinct`: three different names are accepted, a repeated name (also after blanks,
+   also when one occurrence has a value) is rejected with `.dupAttr`; names are compared case-sensitively -/
+def isDupErr (r : Except Err (List Token)) : Bool := match r with | .error .dupAttr => true | _ => false
+
+example : attrSummary (scan ⟨[]⟩ "<p a b=1 A>".toList) =
+    [[(['a'], ⟨1,4⟩, ⟨1,5⟩, none, ⟨0,0⟩, ⟨0,0⟩), (['b'], ⟨1,6⟩, ⟨1,7⟩, some ['1'], ⟨1,8⟩, ⟨1,9⟩),
+      (['A'], ⟨1,10⟩, ⟨1,11⟩, none, ⟨0,0⟩, ⟨0,0⟩)]] := by rfl
+example : isDupErr (scan ⟨[]⟩ "<p a b a>".toList) = true := by rfl
+example : isDupErr (scan ⟨[]⟩ "<p a  b a  =1>".toList) = true := by rfl
+example : isDupErr (scan ⟨[]⟩ "<p a=1 =2 =3>".toList) = true := by rfl
 
 end HS
